@@ -62,6 +62,10 @@ def gen_series(rng, n, kind, missing_ok):
     nan_p = rng.pick((0.0, 0.1, 0.3, 1.0)) if rng.chance(0.7) else 0.0
     if kind == "inp":
         vals = wl.gen_values(rng, n, nan_p=nan_p)
+        if n and rng.chance(0.06):
+            # finite, but far from everyday magnitudes
+            for _ in range(rng.randint(1, 2)):
+                vals[rng.randrange(n)] = rng.pick((1e10, -1e10, 1e20, -1e20, 1e300, 1e-300, 2.0**53 + 1, 9.3e9))
         carrier = rng.weighted([("ndarray", 5), ("list", 4), ("masked", 2 if missing_ok else 0), ("masked_nan", 2 if missing_ok else 0), ("tuple", 1), ("readonly", 2), ("float32", 1), ("int_list", 1)])
         if carrier == "int_list":
             vals = [None if v is None else float(int(v)) for v in vals]
@@ -77,10 +81,12 @@ def gen_series(rng, n, kind, missing_ok):
     if kind in ("lat", "lon"):
         lim = 80 if kind == "lat" else 170
         v, out = rng.dyadic(-lim // 2, lim // 2), []
+        rest = rng.pick((0.0, 0.0, 0.5, 0.9))  # a platform at rest repeats its position exactly
         for _ in range(n):
             out.append(None if rng.chance(nan_p / 2) else v)
-            v = max(-lim, min(lim, v + rng.dyadic(-1, 1, 8)))
-        return {"carrier": rng.pick(("ndarray", "list")), "values": out, "under": 0.0}
+            if not rng.chance(rest):
+                v = max(-lim, min(lim, v + rng.dyadic(-1, 1, 8)))
+        return {"carrier": rng.pick(("ndarray", "list")), "values": out, "under": 0.0, "rest": rest}
     raise ValueError(kind)
 
 
@@ -88,6 +94,12 @@ def gen_data(rng, fn, n=None):
     module, args, _, missing_ok = FUNCS[fn]
     n = wl.gen_n(rng, 24) if n is None else n
     data = {a: gen_series(rng, n, a, missing_ok) for a in args}
+    if "lat" in data and "lon" in data and n >= 2 and rng.chance(0.3):
+        # both coordinates unchanged over some legs (the platform did not move at all)
+        for i in range(1, n):
+            if rng.chance(0.4) and data["lat"]["values"][i - 1] is not None and data["lon"]["values"][i - 1] is not None:
+                data["lat"]["values"][i] = data["lat"]["values"][i - 1]
+                data["lon"]["values"][i] = data["lon"]["values"][i - 1]
     if fn == "pressure_increasing_test":
         # NaN is the only missing marker this test is given (it documents none)
         data["inp"]["carrier"] = rng.pick(("ndarray", "list_nan"))
